@@ -18,7 +18,7 @@ class Obligation:
 
 
 SHAPE_BOUND = {'C11.SIG.1', 'C12.SIG.1', 'C11.PRV.1', 'C12.SHR.1', 'C11.PRV.2', 'C12.GRD.1', 'C13.GRD.3', 'C11.TBL.1', 'C13.LOP.1', 'C13.GRD.1',
-               'C08.LOP.1', 'C17.PRV.1', 'C17.LOP.2', 'C15.PRV.1', 'C19.LOP.2', 'C10.PRV.1', 'C10.PRV.2', 'C18.MPT.2', 'C03.LOP.1', 'C01.SIB.1'}
+               'C08.LOP.1', 'C10.MPT.1', 'C17.PRV.1', 'C17.LOP.2', 'C15.PRV.1', 'C19.LOP.2', 'C10.PRV.1', 'C10.PRV.2', 'C18.MPT.2', 'C03.LOP.1', 'C01.SIB.1'}
 
 
 class Run:
